@@ -94,6 +94,11 @@ void QXmppIq::parseElementFromChild(const QDomElement &element)
     QXmppElementList extensions;
 
     for (const auto &itemElement : iterChildElements(element)) {
+        // the <error/> child is parsed into error() by QXmppStanza::parse() and written by toXml();
+        // keeping it as an extension, too, would serialize it twice
+        if (itemElement.tagName() == u"error") {
+            continue;
+        }
         extensions.append(QXmppElement(itemElement));
     }
     setExtensions(extensions);
